@@ -241,6 +241,8 @@ type asClient struct {
 }
 
 func (c *asClient) DescribeAutoScalingGroups(in *autoscaling.DescribeAutoScalingGroupsInput) (*autoscaling.DescribeAutoScalingGroupsOutput, error) {
+	c.a.J.Big.Lock()
+	defer c.a.J.Big.Unlock()
 	names := awsapi.StringValueSlice(in.AutoScalingGroupNames)
 	e := Entry{Kind: ADescribeASG, ASGs: names}
 	if err := c.a.inject(ADescribeASG); err != nil {
@@ -293,6 +295,8 @@ func (c *asClient) DescribeAutoScalingGroups(in *autoscaling.DescribeAutoScaling
 }
 
 func (c *asClient) SetDesiredCapacity(in *autoscaling.SetDesiredCapacityInput) (*autoscaling.SetDesiredCapacityOutput, error) {
+	c.a.J.Big.Lock()
+	defer c.a.J.Big.Unlock()
 	name := awsapi.StringValue(in.AutoScalingGroupName)
 	e := Entry{Kind: ASetDesired, ASG: name, Value: awsapi.Int64Value(in.DesiredCapacity), Flag: in.HonorCooldown}
 	g := c.a.ASGs[name]
@@ -326,6 +330,8 @@ func (c *asClient) SetDesiredCapacity(in *autoscaling.SetDesiredCapacityInput) (
 }
 
 func (c *asClient) TerminateInstanceInAutoScalingGroup(in *autoscaling.TerminateInstanceInAutoScalingGroupInput) (*autoscaling.TerminateInstanceInAutoScalingGroupOutput, error) {
+	c.a.J.Big.Lock()
+	defer c.a.J.Big.Unlock()
 	id := awsapi.StringValue(in.InstanceId)
 	e := Entry{Kind: ATerminateInASG, IDs: []string{id}, Flag: in.ShouldDecrementDesiredCapacity}
 	inst := c.a.Instances[id]
@@ -375,6 +381,8 @@ func (c *asClient) TerminateInstanceInAutoScalingGroup(in *autoscaling.Terminate
 }
 
 func (c *asClient) AttachInstances(in *autoscaling.AttachInstancesInput) (*autoscaling.AttachInstancesOutput, error) {
+	c.a.J.Big.Lock()
+	defer c.a.J.Big.Unlock()
 	name := awsapi.StringValue(in.AutoScalingGroupName)
 	ids := awsapi.StringValueSlice(in.InstanceIds)
 	e := Entry{Kind: AAttach, ASG: name, IDs: ids}
@@ -429,6 +437,8 @@ func (c *asClient) AttachInstances(in *autoscaling.AttachInstancesInput) (*autos
 }
 
 func (c *asClient) CreateOrUpdateTags(in *autoscaling.CreateOrUpdateTagsInput) (*autoscaling.CreateOrUpdateTagsOutput, error) {
+	c.a.J.Big.Lock()
+	defer c.a.J.Big.Unlock()
 	e := Entry{Kind: ATags}
 	if len(in.Tags) > 0 {
 		e.ASG = awsapi.StringValue(in.Tags[0].ResourceId)
@@ -510,6 +520,8 @@ func (r *FleetReq) effMin() int64 {
 }
 
 func (c *ec2Client) CreateFleet(in *ec2.CreateFleetInput) (*ec2.CreateFleetOutput, error) {
+	c.a.J.Big.Lock()
+	defer c.a.J.Big.Unlock()
 	req := fleetReq(in)
 	e := Entry{Kind: ACreateFleet, Value: req.Total, FleetDetail: req}
 	if err := c.a.inject(ACreateFleet); err != nil {
@@ -592,6 +604,8 @@ func (c *ec2Client) CreateFleet(in *ec2.CreateFleetInput) (*ec2.CreateFleetOutpu
 }
 
 func (c *ec2Client) DescribeInstanceStatusPages(in *ec2.DescribeInstanceStatusInput, fn func(*ec2.DescribeInstanceStatusOutput, bool) bool) error {
+	c.a.J.Big.Lock()
+	defer c.a.J.Big.Unlock()
 	ids := awsapi.StringValueSlice(in.InstanceIds)
 	e := Entry{Kind: AStatusPages, IDs: ids}
 	if err := c.a.inject(AStatusPages); err != nil {
@@ -646,6 +660,8 @@ func (c *ec2Client) DescribeInstanceStatusPages(in *ec2.DescribeInstanceStatusIn
 }
 
 func (c *ec2Client) DescribeInstances(in *ec2.DescribeInstancesInput) (*ec2.DescribeInstancesOutput, error) {
+	c.a.J.Big.Lock()
+	defer c.a.J.Big.Unlock()
 	ids := awsapi.StringValueSlice(in.InstanceIds)
 	e := Entry{Kind: ADescribeInst, IDs: ids}
 	if err := c.a.inject(ADescribeInst); err != nil {
@@ -686,6 +702,8 @@ func (c *ec2Client) DescribeInstances(in *ec2.DescribeInstancesInput) (*ec2.Desc
 }
 
 func (c *ec2Client) TerminateInstances(in *ec2.TerminateInstancesInput) (*ec2.TerminateInstancesOutput, error) {
+	c.a.J.Big.Lock()
+	defer c.a.J.Big.Unlock()
 	ids := awsapi.StringValueSlice(in.InstanceIds)
 	e := Entry{Kind: ATerminateInst, IDs: ids}
 	if err := c.a.inject(ATerminateInst); err != nil {
